@@ -25,3 +25,73 @@ Proof. exact checkpoint_withdrawn_on_removal. Qed.
 Print Assumptions C13_snapshot_gate.
 Print Assumptions C13_checkpoint_recorded_only_when_agreed.
 Print Assumptions C13_checkpoint_withdrawn_when_a_replica_leaves.
+
+(** *** checkpoint soundness over all reachable states (Ctl/CheckpointInv.v) *)
+From Jiva Require Import Ctl.CheckpointInv.
+
+(** In every state reachable by any history (any fault scripts, duplicates, unknown addresses; start
+    requests naming at most one replica), from any initial world: if the controller holds checkpoint [n]
+    and no monitor notification is undelivered, then exactly RF replicas are listed and all are RW, every
+    one of them has snapshot [n] in its chain, and every one whose persisted checkpoint is predicted has
+    persisted exactly [n]. *)
+Theorem C13_checkpoint_sound_reachable : forall (es : list event) (rf0 : nat) (w0 : world) (n : nat),
+  (1 <= rf0)%nat -> forallb ev_wf es = true ->
+  let s := run (init rf0 w0) es in
+  checkpoint s = Some n -> pend_mon s = [] ->
+  count_rw (replicas s) = rf s /\ length (replicas s) = rf s
+  /\ forall a, In a (keys (replicas s)) ->
+       In n (f_chain (wget (w s) a)) /\ (f_cpk (wget (w s) a) = true -> f_cp (wget (w s) a) = Some n).
+Proof. exact checkpoint_sound_reachable. Qed.
+
+(** the invariant behind it is preserved by every event *)
+Theorem C13_checkpoint_sound_step : forall s e, ck_inv s -> ev_wf e = true ->
+  ck_inv (fst (fst (step s e))) /\ checkpoint_sound (fst (fst (step s e))).
+Proof. exact checkpoint_sound_step. Qed.
+
+(** without the quiescence condition: while a checkpoint is held exactly RF replicas are listed, none is
+    rebuilding, every one has the snapshot and has persisted the checkpoint; a listed replica that is not
+    RW is marked ERR and its removal (which withdraws the checkpoint) is queued *)
+Theorem C13_checkpoint_holders_reachable : forall (es : list event) (rf0 : nat) (w0 : world) (n : nat),
+  (1 <= rf0)%nat -> forallb ev_wf es = true ->
+  let s := run (init rf0 w0) es in
+  checkpoint s = Some n ->
+  length (replicas s) = rf s
+  /\ (forall a m, In (a, m) (replicas s) -> m = RW \/ (m = ERR /\ exists i, In (i, a) (pend_mon s)))
+  /\ forall a, In a (keys (replicas s)) ->
+       In n (f_chain (wget (w s) a)) /\ f_cp (wget (w s) a) = Some n /\ f_cpk (wget (w s) a) = true.
+Proof. exact checkpoint_holders_reachable. Qed.
+
+(** the quiescence condition is necessary: after a mode change to ERR the checkpoint is held, with no RW
+    replica, until the monitor delivers the removal *)
+Theorem C13_checkpoint_held_until_monitor_fires :
+  let s := run (init 1 ex_world) (ex_boot ++ [SetMode 0%nat ERR]) in
+  checkpoint s = Some 5%nat /\ count_rw (replicas s) = 0%nat /\ rf s = 1%nat /\ pend_mon s = [(0%nat, 0%nat)]
+  /\ checkpoint (run s [MonFire 0%nat []]) = None.
+Proof. exact checkpoint_held_until_monitor_fires. Qed.
+
+Print Assumptions C13_checkpoint_sound_reachable.
+Print Assumptions C13_checkpoint_sound_step.
+Print Assumptions C13_checkpoint_holders_reachable.
+Print Assumptions C13_checkpoint_held_until_monitor_fires.
+
+(** *** the trace oracle of C13 accepts every trace of the model (Ctl/OracleProofs18.v): for histories
+    whose add / start requests name observed replicas and quiescence flags that are true only where no
+    monitor notification is undelivered *)
+From Jiva Require Import Ctl.Corr Ctl.Oracles Ctl.OracleProofs18.
+
+Theorem C13_oracle_holds_on_model : forall es rf0 n w0 qs, (1 <= rf0)%nat ->
+  forallb ev_wf es = true -> forallb (ev_lt n) es = true -> qs_sound (init rf0 w0) es qs ->
+  walk_q (fun q => lift (c13_step rf0 q) (c13_pair rf0))
+         0 (obs0 rf0 n w0) (map One es) (trace n (init rf0 w0) (map One es)) qs = None.
+Proof. exact c13_oracle_model_init. Qed.
+
+(** a checkpoint that an event newly records is the latest snapshot of every listed replica *)
+Theorem C13_recorded_checkpoint_is_latest_snapshot : forall s e c, struct_ok s -> ev_wf e = true ->
+  checkpoint (fst (fst (step s e))) = Some c ->
+  checkpoint s = Some c
+  \/ forall a, In a (keys (replicas (fst (fst (step s e))))) ->
+       exists tl, f_chain (wget (w (fst (fst (step s e)))) a) = c :: tl.
+Proof. intros s e c H Hwf Hc. exact (checkpoint_fresh_step s e H Hwf c Hc). Qed.
+
+Print Assumptions C13_oracle_holds_on_model.
+Print Assumptions C13_recorded_checkpoint_is_latest_snapshot.
